@@ -1,3 +1,5 @@
 import TinsModel.Props.C02
 #print axioms Tins.Props.C02.serialize_total_and_size_exact
 #print axioms Tins.Props.C02.layers_never_overwrite
+#print axioms Tins.Props.C02.serialize_total_and_size_exact_at
+#print axioms Tins.Props.C02.layers_never_overwrite_at
